@@ -10,7 +10,7 @@ class C04(S.SchedCheck):
     design_ref = "DESIGN.md §5 C04, Appendix A.2, §7 F46"
     quick_n = 500
     thorough_n = 12000
-    workers = 4
+    workers = 1
     technique = ("Lean 4 simulation proof between the nested run-time forest and its flattening (due tymes related by due-equivalence, preserved by one cycle) "
                  "over the shared scheduler model; oracle = the REAL code run twice, nested and flattened, leaf views compared (no model involved); "
                  "correspondence = both real runs against the compiled model (request head flatpair, the model flattens with its own Spec.flatL)")
@@ -38,7 +38,7 @@ class C04(S.SchedCheck):
         progs = [
             (1.0, 0.0, None, [T._lf(1, [0.0, 0.0]), T._lf(2, [2.0, 0.0], "plain"), T._lf(3, [0.5, 0.5, 0.0], "genrecur")]),
             (0.3, 0.3, 2.0, [T._lf(1, [0.7, 0.0]), T._lf(2, [0.0] * 9, "plain"), T._lf(3, [0.3] * 9, "bound"), T._lf(4, [], "doize")]),
-            (0.25, 1.0, None, [T._lf(1, [0.0, 0.6]), T._lf(2, [0.1, None], "genrecur"), T._lf(3, [1.0], "plain", ret=(False,))]),
+            (0.25, 1.0, None, [T._lf(1, [0.0, 0.6]), T._lf(2, [0.1, None], "genrecur"), T._lf(3, [1.0], "genrecur", ret=(False,))]),
             (0.5, 0.0, 1.7, [T._lf(1, [None] * 6, "genrecur"), T._lf(2, [1.0] * 3, "plain"), T._lf(3, [0.0] * 2, "doify", ("done", True)), T._lf(4, [0.75, 0.75])]),
         ]
         cs = []
